@@ -452,6 +452,9 @@ func (r *concRun) exec() {
 				case "SD":
 					r.add(call)
 					err = c.SetWriteDeadline(dl)
+				case "XC":
+					r.add(call)
+					_ = c.Close()
 				case "WC":
 					r.setPay(id, data)
 					r.add(call)
